@@ -234,7 +234,7 @@ func init() {
 		Explanation: "Decides operator order and pairing in the plan builders: WHERE filter below GROUP BY on every path with a WHERE; HAVING applied between Flatten and ORDER/LIMIT in both planners that group on this node, keeping exactly rows whose helper value is 1 and hiding the helper column; IN-subqueries run before the predicate and nil results drop the row. Added clauses: goroutines started per IN-subquery bind per-iteration values (go 1.12 loop variables); _having is the last field the group operator emits, also with CROSSTABT totals.",
 		NotDecided:  []string{"predicate evaluation inside goexpr", "HAVING arithmetic", "equality with a differential run", "FROM (subquery) field mapping beyond Unflatten's wiring"},
 		Assumptions: []string{"goexpr.Expr.Eval returns a bool or nil for boolean predicates"},
-		Rules:       []func(*Ctx){func(c *Ctx) { ruleC08a(c, "C08.a") }, func(c *Ctx) { ruleC08b(c, "C08.b") }, func(c *Ctx) { ruleC08c(c, "C08.c") }, func(c *Ctx) { ruleC08d(c, "C08.d") }, func(c *Ctx) { ruleLoopCapture(c, "C08.e", "z/planner") }, func(c *Ctx) { ruleC08f(c, "C08.f") }, func(c *Ctx) { ruleC08g(c, "C08.g") }, func(c *Ctx) { ruleC08h(c, "C08.h") }},
+		Rules:       []func(*Ctx){func(c *Ctx) { ruleC08a(c, "C08.a") }, func(c *Ctx) { ruleC08b(c, "C08.b") }, func(c *Ctx) { ruleC08c(c, "C08.c") }, func(c *Ctx) { ruleC08d(c, "C08.d") }, func(c *Ctx) { ruleLoopCapture(c, "C08.e", "z/planner") }, func(c *Ctx) { ruleC08f(c, "C08.f") }, func(c *Ctx) { ruleC08g(c, "C08.g") }, func(c *Ctx) { ruleC08h(c, "C08.h") }, func(c *Ctx) { ruleC08i(c, "C08.i") }},
 	})
 }
 
@@ -571,4 +571,39 @@ func ruleC08h(c *Ctx, rule string) {
 		}
 	}
 	c.floor(rule, "OnRow calls in package core", n, 3)
+}
+
+// ruleC08i: the sub-query field source forwards the HAVING flag whenever the
+// wrapped source has one.
+func ruleC08i(c *Ctx, rule string) {
+	c.describe(rule, "dom: pointsAndHavingFieldSource.Get always resolves the wrapped field source and forwards every field named _having — the decision is taken on the fields themselves, never on a flag of the query: the non-pushdown rewrite turns a sub-query's HAVING into a plain '… AS _having' column, so followers see HasHaving == false while the leader's addHaving still reads the flag from the last column")
+	fn := c.need(rule, "(z/planner.pointsAndHavingFieldSource).Get")
+	if fn == nil {
+		return
+	}
+	var get ssa.CallInstruction
+	for _, call := range calls(fn) {
+		if calleeName(call) == "invoke (z/core.FieldSource).Get" {
+			get = call
+		}
+	}
+	if get == nil {
+		c.undecided(rule, "sub-query fields: the wrapped source is always resolved", fn.Pos(), "no call of the wrapped FieldSource.Get found")
+		return
+	}
+	// every successful return is dominated by the wrapped Get
+	ok, n := true, 0
+	for _, in := range instrs(fn) {
+		r, isR := in.(*ssa.Return)
+		if !isR {
+			continue
+		}
+		if len(r.Results) == 2 && isNilConst(r.Results[1]) {
+			n++
+			if !instrDominates(get.(ssa.Instruction), r) {
+				ok = false
+			}
+		}
+	}
+	c.check(rule, "sub-query fields: the wrapped source is always resolved", get.Pos(), ok && n > 0, "every successful return follows wrapped.Get(known)", "pointsAndHavingFieldSource.Get can return without looking at the wrapped fields (e.g. when a query flag says there is no HAVING): a _having column present in the rewritten sub-query is dropped on the followers and the leader's HAVING filter tests _points instead")
 }
